@@ -652,9 +652,13 @@ def write_evidence(prop, tier, seed, results, metas, units, assumptions, wall, v
         'known_findings_seen': kf_lines,
         'exit_code': rc,
     }
-    if bounded:
-        cov['evaluations'] = len(bounded)
-        cov['distinct_nontrivial'] = len(set(r['id'] for r in bounded if r['obligations'] > 0 and r['status'] in ('pass', 'fail')))
+    if bounded or level != 'proof':
+        if not bounded:
+            bounded_for_counts = proved
+        else:
+            bounded_for_counts = bounded
+        cov['evaluations'] = len(bounded_for_counts)
+        cov['distinct_nontrivial'] = len(set(r['id'] for r in bounded_for_counts if r['obligations'] > 0 and r['status'] in ('pass', 'fail')))
         cov['rule'] = ('each bounded check (class B) is one CBMC run over one (harness, configuration, bound) triple with distinct id; '
                        'evaluations = runs started, distinct_nontrivial = runs with a distinct id that generated at least one CBMC property '
                        'and reached the end of their harness (reachability canary fired); CBMC properties per run are listed under "bounded"')
